@@ -276,6 +276,22 @@ def uniqueByFrom (seen : List Target) : List Target → List Target
 /-- `unique_by(|(node, shard)| DefaultPolicyTargetComparator { host_id, shard })`. -/
 def uniqueBy (l : List Target) : List Target := uniqueByFrom [] l
 
+/-- `impl Hash for DefaultPolicyTargetComparator` (`default.rs:508-512`): the host id only - never the shard, because
+a target without shard must land in the bucket of every target of the same node. -/
+def targetHash (t : Target) : Nat := t.1.id
+
+/-- `itertools::unique_by` literally: the keys kept so far live in a `HashMap`; a probe is compared (`Eq`) only with
+the stored keys whose hash equals its own (`hash` = the `Hash` impl composed with the map's hasher). -/
+def uniqueByHashedFrom (hash : Target → Nat) (seen : List Target) : List Target → List Target
+  | [] => []
+  | a :: l =>
+    if seen.any (fun s => hash s == hash a && targetEq s a) then uniqueByHashedFrom hash seen l
+    else a :: uniqueByHashedFrom hash (a :: seen) l
+
+/-- `unique_by` over a hash map whose keys hash by `hash`.  With `hash = targetHash` this is `uniqueBy`
+(`Props.C05.uniqueByHashed_targetHash`: the `Hash`/`Eq` contract holds); with a hash that reads the shard it is not. -/
+def uniqueByHashed (hash : Target → Nat) (l : List Target) : List Target := uniqueByHashedFrom hash [] l
+
 /-- The eight chained iterators of `fallback`, in order. -/
 def fallbackGroups (cl : Cluster) (cfg : Config) (rq : Request) (ρ : RhoFb) : List (List Target) :=
   let pref := preference cfg rq
